@@ -42,7 +42,7 @@ def name2unicode(name: str) -> str:
         return glyphname2unicode[name]
 
     elif name.startswith("uni"):
-        name_without_uni = name.strip("uni")
+        name_without_uni = name[3:]
 
         if HEXADECIMAL.fullmatch(name_without_uni) and len(name_without_uni) % 4 == 0:
             unicode_digits = [
@@ -55,7 +55,7 @@ def name2unicode(name: str) -> str:
             return "".join(characters)
 
     elif name.startswith("u"):
-        name_without_u = name.strip("u")
+        name_without_u = name[1:]
 
         if HEXADECIMAL.fullmatch(name_without_u) and 4 <= len(name_without_u) <= 6:
             unicode_digit = int(name_without_u, base=16)
